@@ -109,6 +109,23 @@ func (h *H) Open(recoveryWindow uint32, unlock bool) error {
 	return h.WaitSynced()
 }
 
+// OpenOffline opens and starts the wallet WITHOUT attaching a chain backend
+// (the state of a daemon whose backend connection is down).
+func (h *H) OpenOffline(unlock bool) error {
+	w, err := wallet.OpenWithRetry(h.DB, h.PubPass, nil, h.Params, 0, 5*time.Millisecond)
+	if err != nil {
+		return fmt.Errorf("wallet.Open: %w", err)
+	}
+	h.W = w
+	w.Start()
+	if unlock {
+		if err := w.Unlock(h.PrivPass, nil); err != nil {
+			return fmt.Errorf("unlock: %w", err)
+		}
+	}
+	return nil
+}
+
 // ErrNotSynced is returned when the wallet did not report ChainSynced in time
 // (a watchdog: inconclusive, never a verdict).
 var ErrNotSynced = fmt.Errorf("wallet did not reach ChainSynced within the watchdog")
